@@ -39,10 +39,15 @@ func (self *Interpreter) callFunc(span errors.Span, val value.Value, args []ast.
 			self.switchModule(fn.Module)
 		}
 
+		// The body sees the globals of its module and its own locals, not the locals of whoever calls it
+		// (the caller may be a function of the same module, further up the call stack).
+		calleeModule := self.currentModule
+		scopesPrev := calleeModule.scopes
+		calleeModule.scopes = []map[string]*value.Value{scopesPrev[0], make(map[string]*value.Value)}
+
 		self.callStackSize++
-		self.pushScope()
 		defer func() {
-			self.popScope()
+			calleeModule.scopes = scopesPrev
 			self.callStackSize--
 			if previousModule != nil {
 				self.switchModule(*previousModule)
